@@ -1,5 +1,4 @@
-"""xtuml/tools.py -> lean/Gen/OSetShape.lean  (C17)
-
+"""xtuml/tools.py -> lean/Gen/OSetShape.lean:
 Reads `class OrderedSet` with `ast` only.  The cell-level methods are emitted as statement lists over the
 `[key, prev, next]` cells (an IR that is nearly one-to-one with the source):
 
